@@ -522,6 +522,7 @@ BlockValues(specs) == [j \in 1..Len(specs) |-> SpecValue(specs, j)]
 \* textual substitution of every implicit spec by the expression list it repeats
 Explicate(specs) == [j \in 1..Len(specs) |->
                         LET e == Effective(specs, j) IN Spec(specs[j].blank, FALSE, e.typ, e.toks)]
+Trailer == <<Spec(FALSE, FALSE, "untyped", <<IotaT>>), Spec(FALSE, TRUE, "untyped", <<>>)>>
 RECURSIVE WorstOf(_, _)
 WorstOf(vals, j) == IF j = Len(vals) THEN vals[j] ELSE Worst(vals[j], WorstOf(vals, j + 1))
 
@@ -838,6 +839,9 @@ IotaIsIndex ==
         LET e == Effective(case.specs, j)
         IN (e.toks = <<IotaT>> /\ e.typ = "untyped") =>
                LET v == SpecValue(case.specs, j) IN v.st = "ok" /\ v.c.i = FromInt(j - 1)
+\* iota does not depend on what precedes the block: the trailer block counts from 0
+IotaRestarts ==
+    IsBlock => \A j \in 1..2 : LET v == SpecValue(Trailer, j) IN v.st = "ok" /\ v.c.i = FromInt(j - 1)
 ImplicitIsTextual ==
     IsBlock => BlockValues(case.specs) = BlockValues(Explicate(case.specs))
 \* inserting a blank spec in front of the tail shifts iota by one for what follows
@@ -855,6 +859,8 @@ OutCase ==
                   [blank |-> case.specs[j].blank, impl |-> case.specs[j].impl, typ |-> case.specs[j].typ,
                    toks |-> case.specs[j].toks, lits |-> LitDecs(case.specs[j].toks)]],
      vals |-> IF case.tier = "block" THEN [j \in 1..Len(case.specs) |-> OutRes(SpecValue(case.specs, j))] ELSE <<>>,
+     \* every block is followed by the block  const ( B0 = iota; B1 ): iota starts again at 0
+     trail |-> IF case.tier = "block" THEN [j \in 1..2 |-> OutRes(SpecValue(Trailer, j))] ELSE <<>>,
      res |-> OutRes(res)]
 \* a rejection is emitted when the rejecting operation is the outermost one (its operands are valid
 \* constants); what an implementation does with an operator over an invalid operand is noise
